@@ -23,7 +23,8 @@ JAVA_TRACE = "-Xss1g -Dtlc2.tool.queue.IStateQueue=StateDeque"
 
 # negative: killed by that signal; 3: the harness's watchdog saw one call into the code under test not
 # return for CLV_HANG_SECS seconds
-CRASH_SIGNALS = {-4: "SIGILL", -6: "SIGABRT", -7: "SIGBUS", -11: "SIGSEGV", 3: "HANG (a call did not return within 20 s)"}
+CRASH_SIGNALS = {-4: "SIGILL", -6: "SIGABRT", -7: "SIGBUS", -11: "SIGSEGV", 3: "HANG (a call did not return within 20 s)",
+                 4: "PANIC (raised by the code under test while the harness prepared an input through the crate's API)"}
 
 
 class CodeCrash(Exception):
@@ -179,7 +180,7 @@ class Ctx:
             case["events_recorded_before_the_call_that_died"] = len(lines)
             case["last_events"] = [l[:3000] for l in lines[-12:]]
         self.violations.append({"prop": self.pid, "sig": "", "kind": "crash", "component": " ".join(a[:2]), "case": case,
-                                "what": ("a call into the code under test did not return: %s" if rc == 3 else "the process was killed by %s inside the code under test") % CRASH_SIGNALS[rc]})
+                                "what": ("a call into the code under test did not return: %s" if rc == 3 else "%s" if rc == 4 else "the process was killed by %s inside the code under test") % CRASH_SIGNALS[rc]})
         raise CodeCrash("%s in harness %s" % (CRASH_SIGNALS[rc], " ".join(a[:2])))
 
     def harness(self, binary, *args, timeout=1800):
